@@ -444,8 +444,9 @@ class Unit:
         ctext = ""
         if contract.strip():
             ctext = "\n" + contract.rstrip() + "\n"
-        if self.twin and under_contract and not is_trait_sig:
-            ctext = self._twin_contract(ctext)
+        if self.twin and under_contract and not is_trait_sig and not (external_body or drop_body):
+            # vacuity twin: the body must be reachable under the precondition (and the axioms in scope)
+            pre_body = pre_body.rstrip() + "\nproof { assert(false); } // @TWIN\n"
         if is_trait_sig:
             # trait method declaration: 'fn f(..) -> T;'  -> contract goes before ';'
             edits.append((sig_end, sig_end, ctext, "contract", "E7"))
@@ -597,7 +598,7 @@ class Unit:
                 edits.append(e)
         ctext = ("\n" + contract.rstrip() + "\n") if contract.strip() else ""
         if self.twin:
-            ctext = self._twin_contract(ctext)
+            pre_body = pre_body.rstrip() + "\nproof { assert(false); } // @TWIN\n"
         head = "pub %sfn %s(%s)%s%s{\n%s" % ("async " if is_async else "", name, params,
                                             (" -> (r: %s)" % ret_type) if ret_type else "", ctext, pre_body)
         self.emit(head, "rule", "E5")
